@@ -155,7 +155,7 @@ def main():
                 f.write('}\n')
             files.append(fn)
     else:
-        units = pairs if mode == 'c06' else [(a, a) for a in range(len(ops))]
+        units = [('pair', a, b) for a, b in pairs] if mode == 'c06' else [('op', a, a) for a in range(len(ops))] + [('link', a, b) for a, b in pairs]
         per = (len(units) + ntu - 1) // ntu
         for k in range(ntu):
             part = units[k * per:(k + 1) * per]
@@ -163,11 +163,11 @@ def main():
             fn = os.path.join(outdir, '%s_gen_%d.cpp' % (mode.upper(), k))
             with open(fn, 'w') as f:
                 f.write('// generated by gen_exprs.py (%s tier)\n#include "harness.h"\n#include "gen/%s"\n' % (tier, common))
-                used = sorted(set(x for p in part for x in p))
+                used = sorted(set(x for p in part for x in p[1:]))
                 for i in used: f.write(emit_struct(i, ops[i][0], ops[i][1]))
                 f.write('void hx_cases(std::vector<hx::Case> &cases) {\n')
-                for a, b in part:
-                    f.write('  add_pair<E%d, E%d>(cases);\n' % (a, b) if mode == 'c06' else '  add_op<E%d>(cases);\n' % a)
+                for kind, a, b in part:
+                    f.write({'pair': '  add_pair<E%d, E%d>(cases);\n' % (a, b), 'link': '  add_link<E%d, E%d>(cases);\n' % (a, b), 'op': '  add_op<E%d>(cases);\n' % a}[kind])
                 f.write('}\n')
             files.append(fn)
     print('\n'.join(files))
